@@ -3,13 +3,15 @@ import ExoVerif.Proofs.EvmFee
 /-!
 # C19 — several Ethereum messages in one cosmos tx (`deliverBatch`)
 
-"For every Ethereum transaction included in a block the sender's nonce increases by exactly one": at full strength
-this fails for a batch in which a successful contract creation is followed by another message of the same sender
-(`C19_batch_nonce_full_fails`, finding F-19d — the nonce of the later message stays usable). It holds for every batch
-in which every successful creation is its sender's last message (`C19_batch_nonce_partial`), in particular for every
-single-message tx, where `deliverBatch` is `deliver` (`C19_batch_singleton`).
-The gas figure of the tx (reported gas_used, charged to the block gas meter) is the sum of the gas its messages are
-charged for (`C19_batch_reported_gas`).
+"For every Ethereum transaction included in a block the sender's nonce increases by exactly one": since the F-19d repair
+(e39c03d: a contract creation restores the nonce found before it, at least msg.Nonce()+1) this holds at full strength for
+every batch, every sender and creations anywhere in the batch (`C19_batch_nonce`). The creation branch as it was before
+the repair is kept as `createNoncePreFix` / `deliverBatchPreFix`: `C19_regression_F19d` shows what it did (both messages
+of [creation, transfer] included, nonce n+1 instead of n+2, the transfer admissible and effective a second time) and that
+the repaired branch does not.
+A single-message tx goes through `deliverBatch` as through `deliver` (`C19_batch_singleton`); the gas figure of the tx
+(reported gas_used, charged to the block gas meter) is the sum of the gas its messages are charged for
+(`C19_batch_reported_gas`); balances sum to zero (`C19_batch_balances_sum_zero`).
 -/
 namespace ExoVerif.EvmFee
 open ExoVerif
@@ -33,36 +35,37 @@ theorem bumpNonces_count (ms : List Msg) : ∀ (n n' : Nat → Int), bumpNonces 
         simp [ha, ha']
     · exact absurd h (by simp)
 
-theorem sentBy_eq_zero_of_all_ne (a : Nat) (r : List Msg) (h : r.all (fun m' => m'.t.sender != a) = true) :
-    sentBy a r = 0 := by
+theorem sentBy_nonneg (a : Nat) (r : List Msg) : 0 ≤ sentBy a r := by
   induction r with
-  | nil => rfl
-  | cons m r ih =>
-    simp only [List.all_cons, Bool.and_eq_true, bne_iff_ne, ne_eq] at h
-    simp [sentBy, h.1, ih h.2]
+  | nil => simp [sentBy]
+  | cons m r ih => simp only [sentBy]; split <;> omega
 
 /-! ## execution: the nonce write of a contract creation -/
 
 theorem afterExec_nonce (e : Env) (s : St) (t : Tx) (x : Exec) (g : Int) : (afterExec e s t x g).nonce = s.nonce := rfl
 
-/-- Under `createsLast`, executing the messages leaves the sequence numbers the ante handler set. -/
-theorem execMsgs_nonce_of_createsLast (e : Env) (ms : List Msg) :
+theorem createNonce_of_ge (nonceBefore msgNonce : Int) (h : msgNonce + 1 ≤ nonceBefore) :
+    createNonce nonceBefore msgNonce = nonceBefore := by
+  unfold createNonce; split <;> omega
+
+/-- Executing the messages leaves the sequence numbers the ante handler set: the repaired creation branch never lowers
+    the nonce it finds, and what it finds is at least msg.Nonce()+1 because the ante handler has counted this message. -/
+theorem execMsgs_nonce (e : Env) (ms : List Msg) :
     ∀ (n n' : Nat → Int) (s : St) (meter tot : Int) (s' : St) (mt : Int) (l : List (Bool × Int)),
-      bumpNonces n ms = some n' → createsLast ms = true → s.nonce = n' →
+      bumpNonces n ms = some n' → s.nonce = n' →
       execMsgs e s meter tot ms = some (s', mt, l) → s'.nonce = n' := by
   induction ms with
   | nil =>
-    intro n n' s meter tot s' mt l _ _ hs h
-    simp only [execMsgs, Option.some.injEq, Prod.mk.injEq] at h
+    intro n n' s meter tot s' mt l _ hs h
+    simp only [execMsgs, execMsgsWith, Option.some.injEq, Prod.mk.injEq] at h
     rw [← h.1]; exact hs
   | cons m r ih =>
-    intro n n' s meter tot s' mt l hb hc hs h
+    intro n n' s meter tot s' mt l hb hs h
     simp only [bumpNonces] at hb
     split at hb
     case isFalse => exact absurd hb (by simp)
     case isTrue hnonce =>
-    simp only [createsLast, Bool.and_eq_true, Bool.or_eq_true, Bool.not_eq_true'] at hc
-    simp only [execMsgs] at h
+    simp only [execMsgs, execMsgsWith] at h
     split at h
     · exact absurd h (by simp)
     · split at h
@@ -70,38 +73,36 @@ theorem execMsgs_nonce_of_createsLast (e : Env) (ms : List Msg) :
       · rename_i s'' mt'' l'' hrec
         simp only [Option.some.injEq, Prod.mk.injEq] at h
         rw [← h.1]
-        refine ih _ n' _ _ _ _ _ _ hb hc.2 ?_ hrec
+        refine ih _ n' _ _ _ _ _ _ hb ?_ hrec
         split
-        · rename_i hcr
-          -- a successful creation: the tail has no message of this sender, so n' sender = nonce + 1 already
-          have htail : r.all (fun m' => m'.t.sender != m.t.sender) = true := by
-            rcases hc.1 with h1 | h1
-            · rw [hcr] at h1; exact absurd h1 (by simp)
-            · exact h1
+        · -- a successful creation: n' sender = n sender + 1 + (later messages of it) ≥ msg.Nonce()+1, so nothing changes
           have hcount := bumpNonces_count r _ _ hb m.t.sender
-          rw [sentBy_eq_zero_of_all_ne _ _ htail] at hcount
+          have hnn := sentBy_nonneg m.t.sender r
           simp only [addAt, if_true] at hcount
           funext a
-          simp only [setAt, afterExec_nonce]
+          simp only [setAt]
           by_cases ha : a = m.t.sender
-          · subst ha; rw [if_pos rfl, hcount, hnonce]; omega
-          · rw [if_neg ha, hs]
+          · subst ha
+            have hv : (afterExec e s m.t m.x (gasUsed e m.t m.x)).nonce m.t.sender = n' m.t.sender := by
+              rw [afterExec_nonce, hs]
+            rw [if_pos rfl, hv, createNonce_of_ge _ _ (by omega)]
+          · rw [if_neg ha, afterExec_nonce, hs]
         · rw [afterExec_nonce]; exact hs
 
 /-! ## shape of an executed batch -/
 
-theorem deliverBatch_executed (e : Env) (s : St) (ms : List Msg) (rej : Int) (fl : List Bool)
-    (h : (deliverBatch e s ms rej).2.1 = .executed fl) :
-    ∃ s1 s2 meter l, anteBatch e s ms = some s1 ∧ execMsgs e s1 0 0 ms = some (s2, meter, l) ∧
-      deliverBatch e s ms rej =
+theorem deliverBatch_executed (cn : Int → Int → Int) (e : Env) (s : St) (ms : List Msg) (rej : Int) (fl : List Bool)
+    (h : (deliverBatchWith cn e s ms rej).2.1 = .executed fl) :
+    ∃ s1 s2 meter l, anteBatch e s ms = some s1 ∧ execMsgsWith cn e s1 0 0 ms = some (s2, meter, l) ∧
+      deliverBatchWith cn e s ms rej =
         ({ s2 with blockGas := s.blockGas + meter }, .executed (l.map (fun p => p.1)), l.map (fun p => p.2), meter) := by
-  unfold deliverBatch at h ⊢
+  unfold deliverBatchWith at h ⊢
   cases hA : anteBatch e s ms with
   | none => rw [hA] at h; simp at h
   | some s1 =>
     rw [hA] at h
     simp only [] at h ⊢
-    cases hE : execMsgs e s1 0 0 ms with
+    cases hE : execMsgsWith cn e s1 0 0 ms with
     | none =>
       rw [hE] at h
       simp only [] at h
@@ -134,10 +135,47 @@ theorem anteBatch_nonces (e : Env) (s s1 : St) (ms : List Msg) (hA : anteBatch e
 
 /-! ## the nonce clause for batches -/
 
-/-- the property at full strength: every included Ethereum message increments its sender's nonce by exactly one -/
-def C19_batch_nonce_full : Prop :=
-  ∀ (e : Env) (s : St) (ms : List Msg) (rej : Int) (fl : List Bool),
-    (deliverBatch e s ms rej).2.1 = .executed fl → ∀ a, (deliverBatch e s ms rej).1.nonce a = s.nonce a + sentBy a ms
+/-- Every included Ethereum message increments its sender's nonce by exactly one: after an executed batch the nonce of
+    every account is its old nonce plus the number of messages it sent — for every batch, creations anywhere in it. -/
+theorem C19_batch_nonce (e : Env) (s : St) (ms : List Msg) (rej : Int) (fl : List Bool)
+    (h : (deliverBatch e s ms rej).2.1 = .executed fl) :
+    ∀ a, (deliverBatch e s ms rej).1.nonce a = s.nonce a + sentBy a ms := by
+  intro a
+  obtain ⟨s1, s2, meter, l, hA, hE, hD⟩ := deliverBatch_executed createNonce e s ms rej fl h
+  show (deliverBatchWith createNonce e s ms rej).1.nonce a = _
+  rw [hD]
+  have hn := anteBatch_nonces e s s1 ms hA
+  have := execMsgs_nonce e ms s.nonce s1.nonce s1 0 0 s2 meter l hn rfl hE
+  show s2.nonce a = _
+  rw [this]
+  exact bumpNonces_count ms _ _ hn a
+
+/-- the same when the whole batch fails after its ante effects (a message below its intrinsic gas, block gas overflow):
+    the messages are dropped, every one of them is charged its whole gas limit and every sender's nonce has advanced by
+    the number of its messages -/
+theorem C19_batch_nonce_failed (e : Env) (s : St) (ms : List Msg) (rej : Int)
+    (h : (deliverBatch e s ms rej).2.1 = .applyErr ∨ (deliverBatch e s ms rej).2.1 = .blockGas) :
+    ∀ a, (deliverBatch e s ms rej).1.nonce a = s.nonce a + sentBy a ms := by
+  intro a
+  unfold deliverBatch deliverBatchWith at h ⊢
+  cases hA : anteBatch e s ms with
+  | none => rw [hA] at h; simp at h
+  | some s1 =>
+    have hn := anteBatch_nonces e s s1 ms hA
+    have hc := bumpNonces_count ms _ _ hn a
+    rw [hA] at h
+    simp only [] at h ⊢
+    cases hE : execMsgsWith createNonce e s1 0 0 ms with
+    | none => simp only []; exact hc
+    | some r =>
+      obtain ⟨s2, meter, l⟩ := r
+      rw [hE] at h
+      simp only [] at h ⊢
+      by_cases hover : (decide (0 < e.blockGasLimit) && decide (e.blockGasLimit < s.blockGas + meter)) = true
+      · rw [if_pos hover]; exact hc
+      · rw [if_neg hover] at h; simp at h
+
+/-! ## regression: the creation branch before the F-19d repair -/
 
 def f19dEnv : Env := { baseFee := 1, blockGasLimit := -1, minGasMult := ⟨0⟩, minGasPrice := ⟨0⟩, collector := 0 }
 def f19dState : St := { bal := fun a => if a = 1 then 1000000000 else 0, nonce := fun _ => 0, blockGas := 0 }
@@ -148,42 +186,32 @@ def f19dBatch : List Msg :=
     { t := { ty := 0, sender := 1, recipient := 2, nonce := 1, gasLimit := 21000, feeCap := 2, tipCap := 0, value := 1000,
              sigOk := true, intrinsic := 21000 }, x := { evmGasUsed := 21000, failed := false }, isCreate := false } ]
 
-/-- F-19d: both messages are included and paid for, the sender's nonce is 1 instead of 2 … -/
-theorem C19_batch_nonce_witness :
+/-- F-19d. With the pre-repair branch (`SetNonce(sender, msg.Nonce()+1)` after evm.Create) both messages of the batch are
+    included and paid for but the sender's nonce is 1 instead of 2, so the transfer (nonce 1) is admissible again and moves
+    the value a second time. With the repaired branch the nonce is 2 and the transfer is refused. -/
+theorem C19_regression_F19d :
+    -- before the repair
+    (deliverBatchPreFix f19dEnv f19dState f19dBatch 0).2.1 = .executed [false, false] ∧
+    (deliverBatchPreFix f19dEnv f19dState f19dBatch 0).1.nonce 1 = 1 ∧ sentBy 1 f19dBatch = 2 ∧
+    (deliverBatchPreFix f19dEnv f19dState f19dBatch 0).1.bal 2 = 1000 ∧
+    admissible f19dEnv (deliverBatchPreFix f19dEnv f19dState f19dBatch 0).1 (f19dBatch.getD 1 default).t = true ∧
+    (deliver f19dEnv (deliverBatchPreFix f19dEnv f19dState f19dBatch 0).1 (f19dBatch.getD 1 default).t
+      (f19dBatch.getD 1 default).x).1.bal 2 = 2000 ∧
+    -- as the code is
     (deliverBatch f19dEnv f19dState f19dBatch 0).2.1 = .executed [false, false] ∧
-    (deliverBatch f19dEnv f19dState f19dBatch 0).1.nonce 1 = 1 ∧ sentBy 1 f19dBatch = 2 ∧
-    (deliverBatch f19dEnv f19dState f19dBatch 0).1.bal 2 = 1000 := by
+    (deliverBatch f19dEnv f19dState f19dBatch 0).1.nonce 1 = 2 ∧
+    admissible f19dEnv (deliverBatch f19dEnv f19dState f19dBatch 0).1 (f19dBatch.getD 1 default).t = false := by
   decide
 
-/-- … so the transfer (nonce 1) is admissible again afterwards and moves the value a second time. -/
-theorem C19_batch_nonce_witness_replay :
-    let s' := (deliverBatch f19dEnv f19dState f19dBatch 0).1
-    let again := (f19dBatch.getD 1 default)
-    admissible f19dEnv s' again.t = true ∧ (deliver f19dEnv s' again.t again.x).1.bal 2 = 2000 := by
-  decide
-
-theorem C19_batch_nonce_full_fails : ¬ C19_batch_nonce_full := by
-  intro h
-  have h1 := h f19dEnv f19dState f19dBatch 0 [false, false] C19_batch_nonce_witness.1 1
-  rw [C19_batch_nonce_witness.2.1, C19_batch_nonce_witness.2.2.1] at h1
-  exact absurd h1 (by decide)
-
-/-- Every message of an executed batch increments its sender's nonce by exactly one, PROVIDED no successful
-    contract creation is followed by a later message of the same sender. -/
-theorem C19_batch_nonce_partial (e : Env) (s : St) (ms : List Msg) (rej : Int) (fl : List Bool)
-    (hc : createsLast ms = true) (h : (deliverBatch e s ms rej).2.1 = .executed fl) :
-    ∀ a, (deliverBatch e s ms rej).1.nonce a = s.nonce a + sentBy a ms := by
-  intro a
-  obtain ⟨s1, s2, meter, l, hA, hE, hD⟩ := deliverBatch_executed e s ms rej fl h
-  rw [hD]
-  have hn := anteBatch_nonces e s s1 ms hA
-  have := execMsgs_nonce_of_createsLast e ms s.nonce s1.nonce s1 0 0 s2 meter l hn hc rfl hE
-  show s2.nonce a = _
-  rw [this]
-  exact bumpNonces_count ms _ _ hn a
-
-example : createsLast [f19dBatch.getD 1 default, f19dBatch.getD 0 default] = true := by decide
-example : createsLast f19dBatch = false := by decide
+/-- the two branches differ only when the nonce found is above msg.Nonce()+1, i.e. only when the ante handler has already
+    counted later messages of the same sender -/
+theorem C19_create_nonce_repair (nonceBefore msgNonce : Int) :
+    createNonce nonceBefore msgNonce = max nonceBefore (createNoncePreFix nonceBefore msgNonce) ∧
+    (nonceBefore ≤ msgNonce + 1 → createNonce nonceBefore msgNonce = createNoncePreFix nonceBefore msgNonce) := by
+  unfold createNonce createNoncePreFix
+  constructor
+  · split <;> omega
+  · intro h; split <;> omega
 
 /-! ## a batch of one message is `deliver` -/
 
@@ -210,9 +238,11 @@ def liftOutcome : Outcome → BatchOutcome
 
 /-- the creation's nonce write is the identity in a single-message tx: the admitted nonce is the sender's sequence -/
 theorem setAt_nonce_singleton (e : Env) (s : St) (t : Tx) (x : Exec) (g : Int) (hn : t.nonce = s.nonce t.sender) :
-    setAt (afterExec e (afterAnte e s t) t x g).nonce t.sender (t.nonce + 1) = (afterExec e (afterAnte e s t) t x g).nonce := by
+    setAt (afterExec e (afterAnte e s t) t x g).nonce t.sender
+        (createNonce ((afterExec e (afterAnte e s t) t x g).nonce t.sender) t.nonce)
+      = (afterExec e (afterAnte e s t) t x g).nonce := by
   funext a
-  simp only [setAt, afterExec_nonce, afterAnte, addAt]
+  simp only [setAt, afterExec_nonce, afterAnte, addAt, createNonce]
   by_cases ha : a = t.sender
   · subst ha; simp [hn]
   · simp [ha]
@@ -227,23 +257,23 @@ theorem C19_batch_singleton (e : Env) (s : St) (m : Msg) (rej : Int) :
     (deliverBatch e s [m] rej).2.2.1 =
       (if (deliver e s m.t { m.x with rejGas := rej }).2.1 = .rejected then [] else [(deliver e s m.t { m.x with rejGas := rej }).2.2]) := by
   cases hadm : admissible e s m.t
-  · simp [deliverBatch, deliver, anteBatch_singleton, hadm, liftOutcome]
+  · simp [deliverBatch, deliverBatchWith, deliver, anteBatch_singleton, hadm, liftOutcome]
   · have hn : m.t.nonce = s.nonce m.t.sender := by
       have := ((admissible_iff e s m.t).mp hadm).1
       simp only [admissibleSeparate, Bool.and_eq_true, decide_eq_true_eq] at this
       exact this.2
     by_cases hi : m.t.gasLimit < m.t.intrinsic
     · by_cases ho : (decide (0 < e.blockGasLimit) && decide (e.blockGasLimit < s.blockGas + m.t.gasLimit)) = true
-      · simp [deliverBatch, deliver, anteBatch_singleton, hadm, liftOutcome, execMsgs, hi, ho, gasLimitSum]
-      · simp [deliverBatch, deliver, anteBatch_singleton, hadm, liftOutcome, execMsgs, hi, ho, gasLimitSum]
+      · simp [deliverBatch, deliverBatchWith, deliver, anteBatch_singleton, hadm, liftOutcome, execMsgsWith, hi, ho, gasLimitSum]
+      · simp [deliverBatch, deliverBatchWith, deliver, anteBatch_singleton, hadm, liftOutcome, execMsgsWith, hi, ho, gasLimitSum]
     · have hg : gasUsed e m.t { m.x with rejGas := rej } = gasUsed e m.t m.x := rfl
       have hae : ∀ g, afterExec e (afterAnte e s m.t) m.t { m.x with rejGas := rej } g = afterExec e (afterAnte e s m.t) m.t m.x g := fun _ => rfl
       by_cases ho : (decide (0 < e.blockGasLimit) && decide (e.blockGasLimit < s.blockGas + gasUsed e m.t m.x)) = true
-      · simp [deliverBatch, deliver, anteBatch_singleton, hadm, liftOutcome, execMsgs, hi, ho, resetAndConsume, hg]
+      · simp [deliverBatch, deliverBatchWith, deliver, anteBatch_singleton, hadm, liftOutcome, execMsgsWith, hi, ho, resetAndConsume, hg]
       · by_cases hc : (m.isCreate && !m.x.failed) = true
-        · simp [deliverBatch, deliver, anteBatch_singleton, hadm, liftOutcome, execMsgs, hi, ho, resetAndConsume, hg, hae, hc,
+        · simp [deliverBatch, deliverBatchWith, deliver, anteBatch_singleton, hadm, liftOutcome, execMsgsWith, hi, ho, resetAndConsume, hg, hae, hc,
             setAt_nonce_singleton e s m.t m.x _ hn]
-        · simp [deliverBatch, deliver, anteBatch_singleton, hadm, liftOutcome, execMsgs, hi, ho, resetAndConsume, hg, hae, hc]
+        · simp [deliverBatch, deliverBatchWith, deliver, anteBatch_singleton, hadm, liftOutcome, execMsgsWith, hi, ho, resetAndConsume, hg, hae, hc]
 
 /-! ## the gas figure of the tx -/
 
@@ -251,18 +281,18 @@ def gasSum : List (Bool × Int) → Int
   | [] => 0
   | p :: r => p.2 + gasSum r
 
-theorem execMsgs_meter (e : Env) (ms : List Msg) :
+theorem execMsgs_meter (cn : Int → Int → Int) (e : Env) (ms : List Msg) :
     ∀ (s : St) (meter tot : Int) (s' : St) (mt : Int) (l : List (Bool × Int)),
-      execMsgs e s meter tot ms = some (s', mt, l) → (ms ≠ [] → mt = tot + gasSum l) ∧ (ms = [] → mt = meter ∧ l = []) := by
+      execMsgsWith cn e s meter tot ms = some (s', mt, l) → (ms ≠ [] → mt = tot + gasSum l) ∧ (ms = [] → mt = meter ∧ l = []) := by
   induction ms with
   | nil =>
     intro s meter tot s' mt l h
-    simp only [execMsgs, Option.some.injEq, Prod.mk.injEq] at h
+    simp only [execMsgsWith, Option.some.injEq, Prod.mk.injEq] at h
     exact ⟨fun h' => absurd rfl h', fun _ => ⟨h.2.1.symm, h.2.2.symm⟩⟩
   | cons m r ih =>
     intro s meter tot s' mt l h
     refine ⟨fun _ => ?_, fun h' => absurd h' (by simp)⟩
-    simp only [execMsgs] at h
+    simp only [execMsgsWith] at h
     split at h
     · exact absurd h (by simp)
     · split at h
@@ -287,9 +317,11 @@ theorem C19_batch_reported_gas (e : Env) (s : St) (ms : List Msg) (rej : Int) (f
     (h : (deliverBatch e s ms rej).2.1 = .executed fl) :
     (deliverBatch e s ms rej).2.2.2 = ((deliverBatch e s ms rej).2.2.1).sum ∧
     (deliverBatch e s ms rej).1.blockGas = s.blockGas + ((deliverBatch e s ms rej).2.2.1).sum := by
-  obtain ⟨s1, s2, meter, l, hA, hE, hD⟩ := deliverBatch_executed e s ms rej fl h
+  obtain ⟨s1, s2, meter, l, hA, hE, hD⟩ := deliverBatch_executed createNonce e s ms rej fl h
+  show (deliverBatchWith createNonce e s ms rej).2.2.2 = ((deliverBatchWith createNonce e s ms rej).2.2.1).sum ∧
+    (deliverBatchWith createNonce e s ms rej).1.blockGas = s.blockGas + ((deliverBatchWith createNonce e s ms rej).2.2.1).sum
   rw [hD]
-  have hm := execMsgs_meter e ms s1 0 0 s2 meter l hE
+  have hm := execMsgs_meter createNonce e ms s1 0 0 s2 meter l hE
   have hsum : ∀ l : List (Bool × Int), (l.map (fun p => p.2)).sum = gasSum l := by
     intro l; induction l with
     | nil => rfl
@@ -332,18 +364,18 @@ theorem afterExec_total (e : Env) (s : St) (t : Tx) (x : Exec) (g : Int) (l : Li
   · rfl
   · exact total_move _ _ _ _ _ hn hs hr
 
-theorem execMsgs_total (e : Env) (l : List Nat) (hn : l.Nodup) (hc : e.collector ∈ l) (ms : List Msg) :
+theorem execMsgs_total (cn : Int → Int → Int) (e : Env) (l : List Nat) (hn : l.Nodup) (hc : e.collector ∈ l) (ms : List Msg) :
     ∀ (s : St) (meter tot : Int) (s' : St) (mt : Int) (r : List (Bool × Int)),
-      execMsgs e s meter tot ms = some (s', mt, r) → (∀ m ∈ ms, m.t.sender ∈ l ∧ m.t.recipient ∈ l) →
+      execMsgsWith cn e s meter tot ms = some (s', mt, r) → (∀ m ∈ ms, m.t.sender ∈ l ∧ m.t.recipient ∈ l) →
       total s'.bal l = total s.bal l := by
   induction ms with
   | nil =>
     intro s meter tot s' mt r h _
-    simp only [execMsgs, Option.some.injEq, Prod.mk.injEq] at h
+    simp only [execMsgsWith, Option.some.injEq, Prod.mk.injEq] at h
     rw [← h.1]
   | cons m rest ih =>
     intro s meter tot s' mt r h hin
-    simp only [execMsgs] at h
+    simp only [execMsgsWith] at h
     split at h
     · exact absurd h (by simp)
     · split at h
@@ -361,10 +393,11 @@ theorem C19_batch_balances_sum_zero (e : Env) (s : St) (ms : List Msg) (rej : In
     (hn : l.Nodup) (hc : e.collector ∈ l) (hin : ∀ m ∈ ms, m.t.sender ∈ l ∧ m.t.recipient ∈ l)
     (h : (deliverBatch e s ms rej).2.1 = .executed fl) :
     total (deliverBatch e s ms rej).1.bal l = total s.bal l := by
-  obtain ⟨s1, s2, meter, r, hA, hE, hD⟩ := deliverBatch_executed e s ms rej fl h
+  obtain ⟨s1, s2, meter, r, hA, hE, hD⟩ := deliverBatch_executed createNonce e s ms rej fl h
+  show total (deliverBatchWith createNonce e s ms rej).1.bal l = _
   rw [hD]
   show total s2.bal l = _
-  rw [execMsgs_total e l hn hc ms s1 0 0 s2 meter r hE hin]
+  rw [execMsgs_total createNonce e l hn hc ms s1 0 0 s2 meter r hE hin]
   unfold anteBatch at hA
   split at hA
   · exact absurd hA (by simp)
